@@ -14,7 +14,8 @@ from common import hexs, unhex
 
 ALPHA = [b"@", b":", b"R", b" ", b"0", b".", b"a"]
 KINDS = [b"do", b"done", b"unchanged", b"waiting", b"locked", b"unlocked", b"check", b"debug", b"x", b"", b"a b", b"\xc3\xa9"]
-TEXTS = [b"", b"t", b"a/b c", b"@@ ", b"@@REDO:do:1:1.0000@@ ghost", b"0 t", b"12 a b", b"@", b"@@", b" @@ @@ ", b"x@@REDO:", "é ü".encode(), b":" * 5, b"a" * 300]
+WS = [b"\r", b"\t", b"\x0b", b"\x0c", b"\x00", b" ", b"\xc2\xa0", b"\xe2\x80\xa8"]   # bytes a "tolerant" parser might trim
+TEXTS = [b"\r", b"t\r", b"0 out/x\r", b"\rt", b"t \r", b"t\t", b" t", b"t ", b"\x0bt\x0c", b"", b"t", b"a/b c", b"@@ ", b"@@REDO:do:1:1.0000@@ ghost", b"0 t", b"12 a b", b"@", b"@@", b" @@ @@ ", b"x@@REDO:", "é ü".encode(), b":" * 5, b"a" * 300]
 
 
 def rec_line(kind, pid, ts, text):
@@ -35,6 +36,11 @@ def run(res):
     for _ in range(20000 if t == "quick" else 200000):
         kind = r.choice(KINDS) if r.random() < 0.7 else bytes(r.choice(b"abcdefgh -_.0") for _ in range(r.randint(0, 6)))
         text = r.choice(TEXTS) if r.random() < 0.5 else b"".join(r.choice(ALPHA + [b"e", b"D", b"O", b"E", b"\t"]) for _ in range(r.randint(0, 30)))
+        if r.random() < 0.2:
+            # leading / trailing bytes that look like white space: legal text, must survive unchanged
+            text = (r.choice(WS) if r.random() < 0.5 else b"") + text + (r.choice(WS) if r.random() < 0.7 else b"")
+            if b"\n" in text:
+                text = text.replace(b"\n", b"")
         recs.append((kind, r.randint(-2**31, 2**31 - 1) if r.random() < 0.3 else r.randint(1, 99999), r.randint(0, 2 * 10**14), text))
     fmt_lines = [rec_line(*x) for x in recs]
     # ---- parse: exhaustive small tails after the prefix + mutations of valid lines (malformed stream)
@@ -50,7 +56,7 @@ def run(res):
         k = r.choice(KINDS + [b"a@b", b"a:b"])
         p = r.choice(BAD_PID) if r.random() < 0.5 else str(r.randint(1, 99999)).encode()
         s = r.choice(BAD_TS) if r.random() < 0.5 else b"%d.%04d" % (r.randint(0, 10**10), r.randint(0, 9999))
-        x = r.choice(TEXTS)
+        x = r.choice(TEXTS) + (r.choice(WS) if r.random() < 0.15 else b"")
         sep = r.choice([b"@@ ", b"@@ ", b"@@ ", b"@@", b"@ ", b" @@ ", b""])
         extra = r.choice([b"", b"", b":more", b":"])
         parse_inputs.append(b"@@REDO:" + k + b":" + p + b":" + s + extra + sep + x)
